@@ -58,24 +58,38 @@ fn consume<S: Stream<Item = Result<u32, ipc_channel::Error>> + Unpin>(mut s: S, 
             }
         }
     }
-    let w = Arc::new(ParkWaker { woken: AtomicBool::new(false), count: AtomicUsize::new(0), thread: std::thread::current() });
-    let waker = futures::task::waker(w.clone());
-    let mut cx = Context::from_waker(&waker);
     loop {
-        match Pin::new(&mut s).poll_next(&mut cx) {
-            Poll::Ready(Some(Ok(v))) => got.push(v),
-            Poll::Ready(Some(Err(e))) => return Err(format!("stream item failed to decode: {}", e)),
-            Poll::Ready(None) => return Ok(got),
-            Poll::Pending => {
-                // a Pending poll must be followed by a wake when something arrives: otherwise this
-                // task sleeps forever (reported as a deadlock)
-                while !w.woken.swap(false, Ordering::SeqCst) {
-                    std::thread::park();
-                }
-            },
+        match poll_until_ready(&mut s) {
+            Some(Ok(v)) => got.push(v),
+            Some(Err(e)) => return Err(format!("stream item failed to decode: {}", e)),
+            None => return Ok(got),
         }
         if got.len() > 1000 {
             return Err("stream does not end".into());
+        }
+    }
+}
+
+/// Hand-written executor step. Every poll is made under a *new* waker (as when a stream is
+/// polled from changing tasks): after a Pending poll under waker A the stream is polled once more
+/// under waker B and the task then sleeps until B is woken -- the contract is that the waker of
+/// the most recent poll is the one notified. A wake that goes elsewhere leaves this task asleep
+/// for ever, which the scheduler reports as a deadlock.
+fn poll_until_ready<S: Stream + Unpin>(s: &mut S) -> Option<S::Item> {
+    let fresh = || Arc::new(ParkWaker { woken: AtomicBool::new(false), count: AtomicUsize::new(0), thread: std::thread::current() });
+    loop {
+        let a = fresh();
+        let wa = futures::task::waker(a.clone());
+        if let Poll::Ready(x) = Pin::new(&mut *s).poll_next(&mut Context::from_waker(&wa)) {
+            return x;
+        }
+        let b = fresh();
+        let wb = futures::task::waker(b.clone());
+        if let Poll::Ready(x) = Pin::new(&mut *s).poll_next(&mut Context::from_waker(&wb)) {
+            return x;
+        }
+        while !b.woken.swap(false, Ordering::SeqCst) {
+            std::thread::park();
         }
     }
 }
@@ -151,19 +165,7 @@ fn quiet_burst_body(n: usize, manual: bool) -> Result<(), String> {
     txs[n - 1].send(4242).map_err(|e| e.to_string())?;
     let mut last = streams.pop().unwrap();
     let first = if manual {
-        let w = Arc::new(ParkWaker { woken: AtomicBool::new(false), count: AtomicUsize::new(0), thread: std::thread::current() });
-        let waker = futures::task::waker(w.clone());
-        let mut cx = Context::from_waker(&waker);
-        loop {
-            match Pin::new(&mut last).poll_next(&mut cx) {
-                Poll::Ready(x) => break x,
-                Poll::Pending => {
-                    while !w.woken.swap(false, Ordering::SeqCst) {
-                        std::thread::park();
-                    }
-                },
-            }
-        }
+        poll_until_ready(&mut last)
     } else {
         futures::executor::block_on(last.next())
     };
